@@ -83,6 +83,13 @@ def canon(s):
 
 
 LOOP_BODY: Dict[int, "S"] = {}  # loopvar placeholder id -> value at the end of the loop body
+SITE_OF: Dict[int, tuple] = {}  # untagged node id (subscripts) -> first source site (relpath, line, col)
+
+
+def site_of(n: "S"):
+    if n.tag is not None and isinstance(n.tag, tuple) and len(n.tag) >= 6 and isinstance(n.tag[0], str):
+        return n.tag[:3] + n.tag[4:6]
+    return SITE_OF.get(n.id)
 
 
 def children(s: S):
@@ -243,6 +250,7 @@ def reset_state():
     the analysed sources)."""
     _INTERN.clear()
     LOOP_BODY.clear()
+    SITE_OF.clear()
     _VATOMS.clear()
     SELF._canon = None
     SELF._atoms = None
@@ -358,7 +366,8 @@ class Interp:
         return ev
 
     def site(self, node):
-        return (self.frame.module.relpath, getattr(node, "lineno", 0), getattr(node, "col_offset", 0), self._chain())
+        return (self.frame.module.relpath, getattr(node, "lineno", 0), getattr(node, "col_offset", 0), self._chain(),
+                getattr(node, "end_lineno", 0), getattr(node, "end_col_offset", 0))
 
     def _chain(self):
         # distinguishes the same syntactic call site inlined through different call chains
@@ -1093,7 +1102,10 @@ class Interp:
                 return mk("cellany", base.name, idx)
             # row indexing: td[mask] / td[idx]
             return self.new_td(base.name, parent=(base, idx))
-        return mk("sub", self.sym(base), self.sym(idx))
+        r = mk("sub", self.sym(base), self.sym(idx))
+        SITE_OF.setdefault(r.id, (self.frame.module.relpath, getattr(n, "lineno", 0), getattr(n, "col_offset", 0),
+                                  getattr(n, "end_lineno", 0), getattr(n, "end_col_offset", 0)))
+        return r
 
     def _key_like(self, idx: S) -> bool:
         """A TD subscript whose index is a (non-constant) string key rather than a row index."""
